@@ -47,8 +47,9 @@ def values(draw, n: int, mode: str, mag: float = 1e6):
         return [_ulp(float(base[i]), k) + 0.0 for i, k in picks]
     if mode == "distinct":
         ks = draw(st.lists(st.integers(-2000, 2000), min_size=n, max_size=n, unique=True))
-        a = draw(st.sampled_from([1.0, 0.5, 0.25, 3.0, 0.1, 7.3, 1000.0, 1e-3]))
-        b = draw(st.sampled_from([0.0, 1.0, -17.5, 0.3, 1234.5]))
+        a = draw(st.sampled_from([1.0, 0.5, 0.25, 3.0, 0.1, 7.3, 1000.0, 1e-3, 1e-6]))
+        # the fine scale only around 0, so that the separation stays far above one ulp
+        b = draw(st.sampled_from([0.0, 1.0, -17.5, 0.3, 1234.5])) if a >= 1e-3 else 0.0
         out = [a * k + b for k in ks]
         return out
     raise ValueError(mode)
